@@ -12,6 +12,7 @@ import (
 type Comp struct {
 	Suf  string
 	Sort string
+	Ref  bool // the component is an allocation id (pointer, slice base, map, chan, func)
 }
 
 // V is a symbolic value: the Go type and one SMT term per component.
@@ -93,7 +94,7 @@ func (e *Engine) comps(t types.Type) []Comp {
 	}
 	var out []Comp
 	if isTimeStruct(t) {
-		out = []Comp{{"", sBV(64)}}
+		out = []Comp{{"", sBV(64), false}}
 		e.tcache[key] = &typeInfo{out}
 		return out
 	}
@@ -101,28 +102,28 @@ func (e *Engine) comps(t types.Type) []Comp {
 	case *types.Basic:
 		switch {
 		case u.Info()&types.IsBoolean != 0:
-			out = []Comp{{"", sBool}}
+			out = []Comp{{"", sBool, false}}
 		case u.Info()&types.IsInteger != 0:
-			out = []Comp{{"", sBV(intWidth(u))}}
+			out = []Comp{{"", sBV(intWidth(u)), false}}
 		case u.Kind() == types.Float32:
-			out = []Comp{{"", sBV(32)}}
+			out = []Comp{{"", sBV(32), false}}
 		case u.Kind() == types.Float64, u.Kind() == types.UntypedFloat:
-			out = []Comp{{"", sBV(64)}}
+			out = []Comp{{"", sBV(64), false}}
 		case u.Info()&types.IsString != 0:
-			out = []Comp{{"", sInt}}
+			out = []Comp{{"", sInt, false}}
 		case u.Kind() == types.UnsafePointer:
-			out = []Comp{{"", sInt}}
+			out = []Comp{{"", sInt, false}}
 		case u.Kind() == types.UntypedNil:
-			out = []Comp{{"", sInt}}
+			out = []Comp{{"", sInt, false}}
 		default:
 			panic(unsupported("basic type " + u.String()))
 		}
 	case *types.Pointer, *types.Map, *types.Chan, *types.Signature:
-		out = []Comp{{"", sInt}}
+		out = []Comp{{"", sInt, true}}
 	case *types.Slice:
-		out = []Comp{{"b", sInt}, {"o", sBV(64)}, {"l", sBV(64)}, {"c", sBV(64)}}
+		out = []Comp{{"b", sInt, true}, {"o", sBV(64), false}, {"l", sBV(64), false}, {"c", sBV(64), false}}
 	case *types.Interface:
-		out = []Comp{{"t", sInt}, {"i", sInt}}
+		out = []Comp{{"t", sInt, false}, {"i", sInt, false}}
 	case *types.Struct:
 		if e.isOpaqueStruct(t) {
 			out = nil
@@ -130,13 +131,13 @@ func (e *Engine) comps(t types.Type) []Comp {
 		}
 		for i := 0; i < u.NumFields(); i++ {
 			for _, c := range e.comps(u.Field(i).Type()) {
-				out = append(out, Comp{fmt.Sprintf("f%d_%s", i, c.Suf), c.Sort})
+				out = append(out, Comp{fmt.Sprintf("f%d_%s", i, c.Suf), c.Sort, c.Ref})
 			}
 		}
 	case *types.Tuple:
 		for i := 0; i < u.Len(); i++ {
 			for _, c := range e.comps(u.At(i).Type()) {
-				out = append(out, Comp{fmt.Sprintf("r%d_%s", i, c.Suf), c.Sort})
+				out = append(out, Comp{fmt.Sprintf("r%d_%s", i, c.Suf), c.Sort, c.Ref})
 			}
 		}
 	case *types.Array:
@@ -145,7 +146,7 @@ func (e *Engine) comps(t types.Type) []Comp {
 		}
 		for i := int64(0); i < u.Len(); i++ {
 			for _, c := range e.comps(u.Elem()) {
-				out = append(out, Comp{fmt.Sprintf("a%d_%s", i, c.Suf), c.Sort})
+				out = append(out, Comp{fmt.Sprintf("a%d_%s", i, c.Suf), c.Sort, c.Ref})
 			}
 		}
 	default:
